@@ -458,7 +458,35 @@ class GTwo(typing.Generic[T_any, T_bound]):
     pass
 
 
+def _generic_with(name, **tv_kwargs):
+    tv = typing.TypeVar(f"T_{name}", **tv_kwargs)
+    import types  # noqa: PLC0415
+    return types.new_class(name, (typing.Generic[tv],), {})
+
+
+# bounds / constraints that are themselves bare generics, parametrised generics, unions or None
+GBoundList = _generic_with("GBoundList", bound=list)
+GBoundDict = _generic_with("GBoundDict", bound=dict)
+GBoundTuple = _generic_with("GBoundTuple", bound=tuple)
+GBoundMapping = _generic_with("GBoundMapping", bound=typing.Mapping)
+GBoundTypingList = _generic_with("GBoundTypingList", bound=typing.List)
+GBoundListInt = _generic_with("GBoundListInt", bound=typing.List[int])
+GBoundUser = _generic_with("GBoundUser", bound=GAny)
+GBoundOpt = _generic_with("GBoundOpt", bound=typing.Optional[int])
+GBoundNone = _generic_with("GBoundNone", bound=type(None))
+T_c2 = typing.TypeVar("T_c2", list, typing.Dict[str, int])
+
+
+class GConstrGeneric(typing.Generic[T_c2]):
+    pass
+
+
 IMPLICIT = {
+    "GBoundList": (GBoundList, (list,)), "GBoundDict": (GBoundDict, (dict,)), "GBoundTuple": (GBoundTuple, (tuple,)),
+    "GBoundMapping": (GBoundMapping, (typing.Mapping,)), "GBoundTypingList": (GBoundTypingList, (typing.List,)),
+    "GBoundListInt": (GBoundListInt, (typing.List[int],)), "GBoundUser": (GBoundUser, (GAny,)),
+    "GBoundOpt": (GBoundOpt, (typing.Optional[int],)), "GBoundNone": (GBoundNone, (type(None),)),
+    "GConstrGeneric": (GConstrGeneric, (typing.Union[list, typing.Dict[str, int]],)),
     "list": (list, (Any,)), "typing.List": (typing.List, (Any,)), "dict": (dict, (Any, Any)), "set": (set, (Any,)),
     "frozenset": (frozenset, (Any,)), "typing.Dict": (typing.Dict, (Any, Any)), "Mapping": (typing.Mapping, (Any, Any)),
     "Sequence": (typing.Sequence, (Any,)), "Iterable": (typing.Iterable, (Any,)), "deque": (typing.Deque, (Any,)),
@@ -479,6 +507,25 @@ def check_implicit(ctx: runner.Ctx, case):
     exp_args = tuple(normalize_type(p) for p in params)
     if tuple(nb.args) != exp_args:
         ctx.violation("bare_generic_args", (case["name"],), case, f"normalize_type({bare!r}).args = {nb.args!r}, expected {exp_args!r}")
+    # the implicit parameter spelled in its own explicit form is the same type too (list == List[Any] ...), the normal form is
+    # idempotent, and a predicate written with the explicit spelling matches a location typed with the bare class
+    for p_spelled in ([typing.List[Any]] if params == (list,) else [typing.Dict[Any, Any]] if params == (dict,) else
+                      [typing.Tuple[Any, ...]] if params == (tuple,) else [GAny[Any]] if params == (GAny,) else []):
+        nx = normalize_type(bare[p_spelled])
+        if nx != nb or hash(nx) != hash(nb):
+            ctx.violation("bare_generic_implicit_params", (case["name"], "explicit_inner"), case,
+                          f"normalize_type({bare!r}) = {nb!r} but normalize_type({bare[p_spelled]!r}) = {nx!r}")
+    if normalize_type(nb.source) != nb or any(normalize_type(a.source) != a for a in nb.args if hasattr(a, "source")):
+        ctx.violation("normal_form_not_idempotent", (case["name"],), case, f"normalize_type({bare!r}) = {nb!r}")
+    explicit = bare[params if len(params) > 1 else params[0]]
+    for pred, loc_tp in ((explicit, bare), (bare, explicit)):
+        try:
+            ok = create_loc_stack_checker(pred).check_loc_stack(None, LocStack(TypeHintLoc(type=loc_tp)))  # type: ignore[arg-type]
+        except Exception as ex:  # noqa: BLE001
+            ok = describe(ex)
+        if ok is not True:
+            ctx.violation("bare_generic_predicate", (case["name"],), case,
+                          f"predicate {pred!r} on a location of type {loc_tp!r}: {ok!r} (the two spell one type)")
 
 
 def explore(ctx: runner.Ctx):
